@@ -1,13 +1,24 @@
-"""./check setup — build everything once from files on disk."""
+"""./check setup — build everything once from files on disk. Never fails because of one theorem file: a proof that no longer
+checks is reported by the check that owns it (with the VIOLATION / no-failing-input-found protocol), not by the setup."""
 import subprocess, os
 from vf import core
 
 
 def run():
-    core.gen_roots()
-    r = subprocess.run(["lake", "build"], cwd=core.LEAN)
-    if r.returncode != 0:
-        return 1
+    with core.Lock("lake"):
+        core.run_translators(core.all_translators())      # Gen/*.lean from /repo as it is now
+        core.gen_roots()
+        r = subprocess.run(["lake", "build", "yvdriver"], cwd=core.LEAN)
+        if r.returncode != 0:
+            print("setup: the model driver does not build; the checks will report it")
+        thm = sorted(f[:-5] for f in os.listdir(os.path.join(core.LEAN, "YaraModel", "Thm")) if f.endswith(".lean"))
+        r = subprocess.run(["lake", "build"] + ["YaraModel.Thm." + t for t in thm], cwd=core.LEAN, stdout=subprocess.PIPE, stderr=subprocess.STDOUT, text=True)
+        if r.returncode != 0:
+            # build the modules one by one so that everything that does check is compiled; the owner check reports the rest
+            for t in thm:
+                r1 = subprocess.run(["lake", "build", "YaraModel.Thm." + t], cwd=core.LEAN, stdout=subprocess.PIPE, stderr=subprocess.STDOUT, text=True)
+                if r1.returncode != 0:
+                    print("setup: YaraModel.Thm.%s does not check at the moment (its check will report it)" % t)
     core.build("asan")
     core.build("plain", cli=True)
     print("setup ok")
